@@ -56,7 +56,14 @@ def adjust_indices(interp, n, start, stop, step):
             count = ite(e >= s, 0, s - e)
         else:
             count = ite(e >= s, 0, sym.floordiv_mod(s - e - 1, -step)[0] + 1)
+    if sym.have_ctx() and CTX_SIMPLIFY_SLICES:
+        # resolve the clamping against the length where the path already decides it: the same window reached along two
+        # routes (a slice of a slice, a position plus a length) then gets the same index terms
+        s, e, count = sym.ctx_simplify_int(s), sym.ctx_simplify_int(e), sym.ctx_simplify_int(count)
     return s, e, step, count
+
+
+CTX_SIMPLIFY_SLICES = True
 
 
 def slice_indices(interp, sl, length):
